@@ -530,20 +530,26 @@ IMPORT_SCRIPT = r'''
 import sys, json, importlib, warnings
 warnings.simplefilter("ignore")
 first = sys.argv[1]
-bundle = json.load(open(sys.argv[2]))
+bundle = json.load(open(sys.argv[2]))      # name -> [home sub-package, encoded dict]
 importlib.import_module(first)
-for sub in ("quansino.mc", "quansino.moves", "quansino.operations", "quansino.integrators", "quansino.utils", "quansino.io"):
-    importlib.import_module(sub)
 from ase.io.jsonio import decode, encode
-from quansino.registry import get_class
 out = {}
-for name, text in bundle.items():
-    d = decode(text)
-    try:
-        obj = get_class(d["name"]).from_dict(d)
-        out[name] = encode(obj.to_dict()) == encode(d)
-    except Exception as exc:
-        out[name] = f"{type(exc).__name__}: {exc}"[:200]
+# classes are rebuilt sub-package by sub-package, importing ONLY the home sub-package of the class (after `first`):
+# a user who restores an operation needs quansino.operations, not the whole package
+order = ["quansino.operations", "quansino.integrators", "quansino.moves", "quansino.mc", "quansino.utils"]  # a MoveStorage references moves and criteria: last
+for home in order:
+    items = [(n, v[1]) for n, v in sorted(bundle.items()) if v[0] == home]
+    if not items:
+        continue
+    importlib.import_module(home)
+    from quansino.registry import get_class
+    for name, text in items:
+        d = decode(text)
+        try:
+            obj = get_class(d["name"]).from_dict(d)
+            out[name] = encode(obj.to_dict()) == encode(d)
+        except Exception as exc:
+            out[name] = f"{type(exc).__name__}: {exc}"[:200]
 print("RESULT " + json.dumps(out))
 '''
 
@@ -574,7 +580,8 @@ def make_bundle(classes):
                     obj = cls(0.3) if len(sig.parameters) > 1 else cls()
                 else:
                     obj = cls()
-            bundle[name] = encode(obj.to_dict())
+            home = ".".join(cls.__module__.split(".")[:2])
+            bundle[name] = [home, encode(obj.to_dict())]
         except Exception as exc:
             bundle[name] = None
     return {k: v for k, v in bundle.items() if v is not None}
